@@ -290,7 +290,7 @@ func streamParse(thorough bool) {
 				}
 			}
 		}
-		// every single legal value of every metric alone on top of the first skeleton
+		strs = append(strs, v.longInputs()...)
 		for i := 0; i < nValid; i++ {
 			strs = append(strs, v.render(v.randomValid()))
 		}
@@ -510,4 +510,68 @@ func streamObj(thorough bool) {
 			v.opGet(b, mt.abv)
 		}
 	}
+}
+
+// inputs far from the usual sizes: very long vectors/elements, exact part counts around the v2 split limit,
+// bytes >= 0x80, NUL
+func (v *version) longInputs() []string {
+	var res []string
+	for _, sk := range v.skeletons() {
+		full := v.render(sk)
+		els := make([]string, len(sk))
+		for i, p := range sk {
+			els[i] = p.a + ":" + p.v
+		}
+		last := els[len(els)-1]
+		for _, k := range []int{1, 2, 3, 4, 5, 8, 13, 14, 15, 16, 17, 250, 300, 1000} {
+			res = append(res, full+strings.Repeat("/"+last, k))
+			res = append(res, full+strings.Repeat("/", k))
+			res = append(res, full+strings.Repeat("/E:X", k))
+			if k <= len(els) {
+				// exactly k parts
+				res = append(res, v.header+map[bool]string{true: "", false: "/"}[v.name == "20"]+strings.Join(els[:k], "/"))
+			}
+		}
+		// total part counts 12..17 by repeating the last element (v2 splits into at most 14 parts)
+		for n := 12; n <= 17; n++ {
+			e := append([]string{}, els...)
+			for len(e) < n {
+				e = append(e, last)
+			}
+			sep := "/"
+			if v.name == "20" {
+				sep = ""
+			}
+			res = append(res, v.header+sep+strings.Join(e[:n], "/"))
+		}
+		long := strings.Repeat("H", 300)
+		for i := range els {
+			e := append([]string{}, els...)
+			e[i] = sk[i].a + ":" + long
+			res = append(res, v.render(nil)+joinEls(v, e))
+			e = append([]string{}, els...)
+			e[i] = long + ":" + sk[i].v
+			res = append(res, v.render(nil)+joinEls(v, e))
+			for _, b := range []string{"\x80", "\xff", "\x00", "\xc3\xa9", "\xe2\x80\x8b"} {
+				e = append([]string{}, els...)
+				e[i] = sk[i].a + ":" + sk[i].v + b
+				res = append(res, v.render(nil)+joinEls(v, e))
+				e = append([]string{}, els...)
+				e[i] = sk[i].a + b + ":" + sk[i].v
+				res = append(res, v.render(nil)+joinEls(v, e))
+				e = append([]string{}, els...)
+				e[i] = b + e[i]
+				res = append(res, v.render(nil)+joinEls(v, e))
+			}
+		}
+		res = append(res, full+strings.Repeat("A", 5000), strings.Repeat("/", 5000), v.header+strings.Repeat("/AV:N", 400))
+	}
+	return res
+}
+
+func joinEls(v *version, e []string) string {
+	if v.name == "20" {
+		return strings.Join(e, "/")
+	}
+	return "/" + strings.Join(e, "/")
 }
